@@ -31,43 +31,21 @@ use wfv::{
     hex, Finish, Rng, Run, State, J,
 };
 
-/// counts the bytes a reader consumed
-struct Counting<R: ByteReader> {
-    inner: R,
-    used: usize,
-}
-impl<R: ByteReader> ByteReader for Counting<R> {
-    fn read_u8(&mut self) -> Result<u8, DeserializationError> {
-        let r = self.inner.read_u8();
-        self.used += r.is_ok() as usize;
-        r
-    }
-    fn peek_u8(&self) -> Result<u8, DeserializationError> {
-        self.inner.peek_u8()
-    }
-    fn read_slice(&mut self, len: usize) -> Result<&[u8], DeserializationError> {
-        let r = self.inner.read_slice(len);
-        if r.is_ok() {
-            self.used += len;
+/// decodes one value straight from the reader under test (no wrapper in between: a reader's own overrides of the
+/// provided trait methods must be the ones that run) and measures what it consumed by draining the rest
+fn decode_and_measure<T: Deserializable, R: ByteReader>(rd: &mut R, total: usize) -> Result<(T, usize, bool), DeserializationError> {
+    let x = T::read_from(rd)?;
+    let more = rd.has_more_bytes();
+    let mut rest = 0usize;
+    while rd.read_u8().is_ok() {
+        rest += 1;
+        if rest > total + 8 {
+            break;
         }
-        r
     }
-    fn read_array<const N: usize>(&mut self) -> Result<[u8; N], DeserializationError> {
-        let r = self.inner.read_array::<N>();
-        if r.is_ok() {
-            self.used += N;
-        }
-        r
-    }
-    fn check_eor(&self, n: usize) -> Result<(), DeserializationError> {
-        self.inner.check_eor(n)
-    }
-    fn has_more_bytes(&self) -> bool {
-        self.inner.has_more_bytes()
-    }
+    Ok((x, total.wrapping_sub(rest), more))
 }
 
-/// the round-trip monitor; `eq` compares the decoded value with the original
 fn rt_with<T: Serializable + Deserializable>(st: &mut State, rng: &mut Rng, ty: &str, v: &T, eq: impl Fn(&T, &T) -> bool, show: impl Fn() -> String) {
     let bytes = match catch(|| v.to_bytes()) {
         Ok(b) => b,
@@ -103,31 +81,22 @@ fn rt_with<T: Serializable + Deserializable>(st: &mut State, rng: &mut Rng, ty: 
     };
     // SliceReader
     let r = catch(|| {
-        let mut rd = Counting { inner: SliceReader::new(&padded), used: 0 };
-        T::read_from(&mut rd).map(|x| {
-            let more = rd.has_more_bytes();
-            (x, rd.used, more)
-        })
+        let mut rd = SliceReader::new(&padded);
+        decode_and_measure::<T, _>(&mut rd, padded.len())
     });
     judge(st, "SliceReader", r);
     // Cursor
     let r = catch(|| {
-        let mut rd = Counting { inner: Cursor::new(&padded), used: 0 };
-        T::read_from(&mut rd).map(|x| {
-            let more = rd.has_more_bytes();
-            (x, rd.used, more)
-        })
+        let mut rd = Cursor::new(&padded);
+        decode_and_measure::<T, _>(&mut rd, padded.len())
     });
     judge(st, "Cursor", r);
     // ReadAdapter over a chunking source
     let sched = Schedule::random(rng, false);
     let r = catch(|| {
         let mut src = ChunkedSource::new(padded.clone(), sched.clone());
-        let mut rd = Counting { inner: ReadAdapter::new(&mut src), used: 0 };
-        T::read_from(&mut rd).map(|x| {
-            let more = rd.has_more_bytes();
-            (x, rd.used, more)
-        })
+        let mut rd = ReadAdapter::new(&mut src);
+        decode_and_measure::<T, _>(&mut rd, padded.len())
     });
     judge(st, "ReadAdapter", r);
     // exact bytes through the convenience constructor
@@ -208,11 +177,14 @@ fn primitives(run: &Run) {
         rt(st, rng, "Option<Option<u8>>", &o2);
         let s = rand_string(rng);
         rt(st, rng, "String", &s);
-        let vlen = match rng.below(6) {
+        let vlen = match rng.below(8) {
             0 => 0,
             1 => 127,
             2 => 128,
             3 => 129,
+            // around the 256-byte buffer of the streaming reader, and well beyond it
+            4 => [255usize, 256, 257, 511, 512, 513][rng.usize(6)],
+            5 => rng.range(258, 3000),
             _ => rng.usize(20),
         };
         let v8 = rng.bytes(vlen);
@@ -229,6 +201,20 @@ fn primitives(run: &Run) {
         rt(st, rng, "(usize,u8,u16,u32)", &(u, 1u8, 2u16, 3u32));
         rt(st, rng, "(u8,u8,u8,u8,usize)", &(1u8, 2u8, 3u8, 4u8, u));
         rt(st, rng, "(u8,u16,u32,u64,u128,usize)", &(1u8, 2u16, 3u32, u as u64, 5u128, u));
+        // long byte payloads between length-prefixed values (the streaming reader switches buffering strategy there)
+        let long_len = *rng.pick(&[255usize, 256, 257, 300, 512, 1000]);
+        let long = rng.bytes(long_len);
+        let s2 = rand_string(rng);
+        rt(st, rng, "(String,Vec<u8>,String)", &(s.clone(), long.clone(), s2));
+        rt(st, rng, "(Vec<u8>,u8,Vec<u8>,usize)", &(v8.clone(), u as u8, long.clone(), u));
+        let npairs = rng.range(1, 3);
+        let mut pairs: Vec<(Vec<u8>, String)> = Vec::new();
+        for k in 0..npairs {
+            let short_len = rng.usize(20);
+            let payload = if k == 1 { rng.bytes(short_len) } else { long.clone() };
+            pairs.push((payload, rand_string(rng)));
+        }
+        rt(st, rng, "Vec<(Vec<u8>,String)>", &pairs);
         rt(st, rng, "[u8;0]", &[0u8; 0]);
         rt(st, rng, "[u16;3]", &[u as u16, 7, 9]);
         let arr32: [u8; 32] = rng.bytes(32).try_into().unwrap();
@@ -324,6 +310,13 @@ fn air_types(run: &Run) {
         rt_with(st, rng, "FieldExtension", &fe, |a, b| a == b, || format!("{fe:?}"));
         let ti = rand_trace_info(rng);
         rt(st, rng, "TraceInfo", &ti);
+        // a trace description between other length-prefixed values
+        if ti.meta().len() <= 300 {
+            let (sa, sb) = (rand_string(rng), rand_string(rng));
+            rt(st, rng, "(String,TraceInfo,String)", &(sa, ti.clone(), sb));
+            let other = rand_trace_info(rng);
+            rt(st, rng, "Vec<TraceInfo>", &vec![ti.clone(), other, ti.clone()]);
+        }
         if ti.main_trace_width() >= 254 || ti.width() == 255 {
             st.count("traceinfo.width_ge_254");
         }
@@ -479,7 +472,7 @@ fn main() {
         require.push((k.to_string(), 1));
     }
     run.finish(Finish {
-        rule: "per type, generated values incl. boundary members (sizes 0,1,2^7k-1/2^7k/2^7k+1,2^63,usize::MAX; empty/127/128-element collections; multi-byte strings; nested compositions; boundary field elements also via operation chains; digests of all six hashers; ProofOptions over the constructor space with boundaries; TraceInfo with widths 1/254/255, aux segments with 0 and >0 random elements, metadata of 0..65535 bytes, lengths 2^3..2^32; Context; Commitments; Queries with 1/255 queries x 1/255 columns; OodFrame with/without Lagrange frame; FriProof with 0..max layers and 1..256 remainder coefficients) are encoded and decoded through SliceReader, Cursor and ReadAdapter (random chunking) with 0..4 trailing garbage bytes: decoded == original, consumed == written, has_more_bytes == (garbage > 0); parse() of the proof components must return the original content. distinct = distinct (type, encoding)".into(),
+        rule: "per type, generated values incl. boundary members (sizes 0,1,2^7k-1/2^7k/2^7k+1,2^63,usize::MAX; empty/127/128/255..257/512/up to 3000-element collections; long byte payloads and trace descriptions between other length-prefixed values; multi-byte strings; nested compositions; boundary field elements also via operation chains; digests of all six hashers; ProofOptions over the constructor space with boundaries; TraceInfo with widths 1/254/255, aux segments with 0 and >0 random elements, metadata of 0..65535 bytes, lengths 2^3..2^32; Context; Commitments; Queries with 1/255 queries x 1/255 columns; OodFrame with/without Lagrange frame; FriProof with 0..max layers and 1..256 remainder coefficients) are encoded and decoded through SliceReader, Cursor and ReadAdapter (random chunking) with 0..4 trailing garbage bytes: decoded == original, consumed == written, has_more_bytes == (garbage > 0); parse() of the proof components must return the original content. distinct = distinct (type, encoding)".into(),
         assumptions: vec!["equality is the type's own PartialEq".into(), "whole proofs produced by the prover are round-tripped in C01".into()],
         exhaustive: false,
         require,
